@@ -111,7 +111,8 @@ def quantifier(self, n, env):
 
 def call_value(self: Exec, f, args, kwargs, node=None):
   if any(isinstance(a, tuple) and not isinstance(a, PyTuple) and a and a[0] == '*' for a in args):
-    if not isinstance(f, (Handler,)) and not (isinstance(f, SV) and getattr(f.sort, 'call_hook', None)):
+    custom_method = isinstance(f, BoundMethod) and isinstance(self.deref(f.recv), SV) and f.name in (getattr(self.deref(f.recv).sort, 'methods', None) or {})
+    if not isinstance(f, (Handler,)) and not custom_method and not (isinstance(f, SV) and getattr(f.sort, 'call_hook', None)):
       raise OutsideSubset('call with *args of symbolic length')
   if isinstance(f, Closure):
     return call_closure(self, f, args, kwargs)
@@ -353,8 +354,14 @@ def apply_contract(self: Exec, sp: C.FnSpec, args, kwargs):
       boxes[p] = v
     env.set(p, self.coerce(v, s))
   for p, s in sp.free:
-    # free variables of a nested function: taken from the caller's closure (same names)
-    raise OutsideSubset(f'call of closure-converted {sp.short} from verified code')
+    # free variables (module globals / closure cells): the caller's variable of the same name
+    try:
+      v = self._cur_env.lookup(p)
+    except Exception:
+      raise OutsideSubset(f'call of {sp.short}: its free variable {p} is not a variable of the caller')
+    if isinstance(v, Box):
+      boxes[p] = v
+    env.set(p, self.coerce(v, s))
   tag = sp.short
   for i, g in enumerate(eval_clauses(self, sp.requires, env, {})):
     self.oblige(g, f'pre:{tag}[{i}]')
@@ -386,10 +393,10 @@ def apply_contract(self: Exec, sp: C.FnSpec, args, kwargs):
       raise RaiseEx(ExcVal(self.exc_tag(exn)))
   # havoc mutated parameters
   old_env = Env(None)
-  for p, s in sp.params:
+  for p, s in list(sp.params) + list(sp.free):
     old_env.set(p, env.lookup(p))
   for p in sp.assigns:
-    s = dict(sp.params)[p]
+    s = dict(list(sp.params) + list(sp.free))[p]
     nv = self.fresh(s, p + "'")
     env.set(p, nv)
     if p in boxes:
